@@ -85,6 +85,9 @@ type simFS struct {
 	faultIn int // calls until a fault fires (-1: none)
 	fired   map[string]int
 	lastHit bool // a fault fired during the current query
+	// chunk: files hand out at most this many bytes per Read (0: as many as asked for) - a reader may
+	// always return fewer bytes than requested
+	chunk int
 }
 
 type simFile struct {
@@ -132,6 +135,9 @@ func (s *simFile) Read(p []byte) (int, error) {
 	}
 	if s.fsys.fault("read_error") {
 		return 0, errSimFS
+	}
+	if c := s.fsys.chunk; c > 0 && len(p) > c {
+		p = p[:c]
 	}
 	return s.r.Read(p)
 }
@@ -222,6 +228,7 @@ func c19Spelling(t *sim.Tape, p string) string {
 }
 
 type c19 struct {
+	memberPanics int // panics raised by a panicOnceLoader so far
 	env   *sim.Env
 	t     *sim.Tape
 	nVer  int
@@ -288,6 +295,10 @@ func (c *c19) newLut(kind string) *lut {
 		l.loader = ld
 	case "httpfs":
 		l.sfs = &simFS{t: l.model, tape: c.t, faultIn: -1, fired: map[string]int{}}
+		if c.t.Choose(3) == 2 {
+			l.sfs.chunk = []int{1, 7, 64, 500}[c.t.Choose(4)]
+			c.env.Stat("probe:file_system_with_short_reads", 1)
+		}
 		ld, err := httpfs.NewLoader(l.sfs)
 		if err != nil {
 			panic(err)
@@ -447,6 +458,34 @@ func clipAll(ss []string) []string {
 	return out
 }
 
+// panicOnceLoader is a member of a multi stack that panics in its at-th call (a user's loader with a
+// bug): the panic comes out of the multi loader's call, and the stack must be usable afterwards -
+// lookups, AddLoaders, ClearLoaders.
+type panicOnceLoader struct {
+	inner jet.Loader
+	at    int
+	n     int
+	fired *int
+}
+
+func (l *panicOnceLoader) tick(what, p string) {
+	l.n++
+	if l.n == l.at {
+		*l.fired++
+		panic(fmt.Errorf("INJ-loader: a member loader panicked in %s(%q)", what, p))
+	}
+}
+
+func (l *panicOnceLoader) Exists(p string) bool {
+	l.tick("Exists", p)
+	return l.inner.Exists(p)
+}
+
+func (l *panicOnceLoader) Open(p string) (io.ReadCloser, error) {
+	l.tick("Open", p)
+	return l.inner.Open(p)
+}
+
 // openOnly: Open(p) some time after an Exists(p) call, with edits in between. Judged against the
 // reference at the time of the Open: if the path is a file now, Open must yield its current bytes.
 func (c *c19) openOnly(name string, ld jet.Loader, owners []*lut, p string, spelled string) {
@@ -463,6 +502,7 @@ func (c *c19) openOnly(name string, ld jet.Loader, owners []*lut, p string, spel
 	}
 	var data []byte
 	var err error
+	panicsBefore := c.memberPanics
 	pc := sim.Guard(func() {
 		var rc io.ReadCloser
 		rc, err = ld.Open(spelled)
@@ -472,6 +512,10 @@ func (c *c19) openOnly(name string, ld jet.Loader, owners []*lut, p string, spel
 		}
 	})
 	c.env.Event("%s.Open(%q) later -> err=%v", name, spelled, err)
+	if pc != nil && c.memberPanics > panicsBefore {
+		c.env.Stat("fault:member_loader_panics", 1)
+		return
+	}
 	if pc != nil {
 		c.env.Violate("contract", name+":panic", "%s.Open(%q) panicked: %v", name, spelled, pc)
 		return
@@ -508,7 +552,13 @@ func (c *c19) query(name string, ld jet.Loader, owners []*lut, p string, spelled
 		faulty.lastHit = false
 	}
 	var ex bool
+	panicsBefore := c.memberPanics
 	pc := sim.Guard(func() { ex = ld.Exists(spelled) })
+	if pc != nil && c.memberPanics > panicsBefore {
+		c.env.Event("%s.Exists(%q): a member loader panicked", name, spelled)
+		c.env.Stat("fault:member_loader_panics", 1)
+		return // the member's panic came out of the call; nothing to judge in this query
+	}
 	hit := faulty != nil && faulty.lastHit
 	c.env.Event("%s.Exists(%q)=%v want=%v", name, spelled, ex, wantFile)
 	if pc != nil {
@@ -545,6 +595,10 @@ func (c *c19) query(name string, ld jet.Loader, owners []*lut, p string, spelled
 		}
 	})
 	hit = faulty != nil && faulty.lastHit
+	if pc != nil && c.memberPanics > panicsBefore {
+		c.env.Stat("fault:member_loader_panics", 1)
+		return
+	}
 	if pc != nil {
 		c.env.Violate("contract", name+":panic", "%s.Open(%q) panicked: %v", name, spelled, pc)
 		return
@@ -664,6 +718,13 @@ func RunC19(env *sim.Env) {
 		var luts []*lut
 		for i := 0; i < n; i++ {
 			luts = append(luts, c.newLut([]string{"inmem", "os", "httpfs", "inmem"}[t.Choose(4)]))
+		}
+		// one member in six is a loader that panics once, in its k-th call
+		if t.Choose(6) == 5 {
+			v := luts[t.Choose(len(luts))]
+			v.loader = &panicOnceLoader{inner: v.loader, at: t.Range(1, 8), fired: &c.memberPanics}
+			c.hist = append(c.hist, "member-"+v.kind+"-panics-once")
+			env.Stat("probe:multi_with_a_member_that_panics_once", 1)
 		}
 		var loaders []jet.Loader
 		nInitial := t.Range(1, n)
